@@ -14,7 +14,7 @@ LEVEL = 'exploration'
 RULE = ('Gaussian-copula training table (2..6 columns, 9 marginal kinds, factor/equi/AR(1)/block correlation, n_train '
         '300..2000, optional constant column, str/int/mixed labels) x marginal configuration (default selection, class, '
         'FQN, instance with options, Univariate with candidates/filters, per-column dict) x sampler seed x n in '
-        '{1, 2, 17, n_big} (n_big 4000 quick / 20000 thorough). Oracle: exact schema (rows, column order, no NaN, constant '
+        '{1, 2, 17, n_big} (n_big drawn from 2500..9000 quick / 12000..30000 thorough: sample sizes on both sides of any internal batch size). Oracle: exact schema (rows, column order, no NaN, constant '
         'column reproduced), DKW band of every sampled column against its fitted marginal CDF, Hoeffding band of pairwise '
         'Kendall tau against (2/pi) asin(rho_hat); recovery sub-property: closed-form marginals and correlation recovered '
         'within sampling error, scipy-MLE families by the exact-binomial 80% rule. Non-trivial: >= 2 non-constant columns, '
@@ -48,7 +48,7 @@ def strategy(n_big):
         else:
             cfg = draw(M.gaussian_config(d, classes=M.FAST_CLASSES))
         return {'table': table, 'config': cfg, 'seed': draw(S.SEEDS), 'seed_kind': draw(st.sampled_from(['int', 'RandomState'])),
-                'n_small': draw(st.sampled_from([1, 2, 17])), 'n_big': n_big}
+                'n_small': draw(st.sampled_from([1, 2, 17])), 'n_big': draw(st.integers(n_big[0], n_big[1]))}
 
     return cases()
 
@@ -192,8 +192,8 @@ def oracle_mle(case):
 
 
 SUBS = [
-    Sub('schema_and_law', strategy(4000), oracle, quick=64, thorough=0, shrink=False),
-    Sub('schema_and_law_large', strategy(20000), oracle, quick=0, thorough=960, shrink=False),
+    Sub('schema_and_law', strategy((2500, 9000)), oracle, quick=64, thorough=0, shrink=False),
+    Sub('schema_and_law_large', strategy((12000, 30000)), oracle, quick=0, thorough=960, shrink=False),
     Sub('recovery', recovery_strategy(), oracle_recovery, quick=160, thorough=4800),
     Sub('recovery_mle', None, oracle_mle, enumerate_cases=mle_cells),
 ]
